@@ -67,6 +67,7 @@ type taintState struct {
 	c           *Ctx
 	val         map[ssa.Value]*taintV
 	field       map[*types.Var]*taintV
+	elem        map[*types.Var]*taintV // taint of the elements of slice-typed struct fields
 	ret         map[*ssa.Function][]*taintV
 	param       map[*ssa.Parameter]*taintV
 	funcs       []*ssa.Function
@@ -356,6 +357,13 @@ func (ts *taintState) transfer(f *ssa.Function) {
 								ts.set(x, t)
 							}
 						}
+					case *ssa.IndexAddr:
+						// element of a slice held in a struct field
+						if fv := sliceFieldOf(a.X); fv != nil {
+							if t := ts.elem[fv]; t != nil && isIntType(x.Type()) {
+								ts.set(x, t)
+							}
+						}
 					case *ssa.Alloc:
 						// local variable: join of stored values
 						for _, ref := range *a.Referrers() {
@@ -383,6 +391,21 @@ func (ts *taintState) transfer(f *ssa.Function) {
 				}
 				ts.set(x, j)
 			case *ssa.Store:
+				// elements: F = append(F, v...) and F[i] = v
+				if fa, ok := x.Addr.(*ssa.FieldAddr); ok {
+					if call, ok := x.Val.(*ssa.Call); ok {
+						if bi, ok := call.Call.Value.(*ssa.Builtin); ok && bi.Name() == "append" && len(call.Call.Args) == 2 {
+							if fv := fieldVar(fa.X.Type(), fa.Field); fv != nil {
+								ts.joinElem(fv, ts.appendedTaint(call.Call.Args[1]))
+							}
+						}
+					}
+				}
+				if ia, ok := x.Addr.(*ssa.IndexAddr); ok {
+					if fv := sliceFieldOf(ia.X); fv != nil {
+						ts.joinElem(fv, ts.get(x.Val))
+					}
+				}
 				if t := ts.get(x.Val); t != nil {
 					if fa, ok := x.Addr.(*ssa.FieldAddr); ok {
 						if fv := fieldVar(fa.X.Type(), fa.Field); fv != nil {
@@ -423,6 +446,63 @@ func (ts *taintState) transfer(f *ssa.Function) {
 	}
 	// composite literals: &T{F: v} stores appear as FieldAddr stores (handled); struct values built with
 	// ssa.MakeStruct do not exist in go/ssa (fields are stored individually).
+}
+
+// sliceFieldOf: v is a load of a slice-typed struct field.
+func sliceFieldOf(v ssa.Value) *types.Var {
+	ld, ok := v.(*ssa.UnOp)
+	if !ok || ld.Op != token.MUL {
+		return nil
+	}
+	fa, ok := ld.X.(*ssa.FieldAddr)
+	if !ok {
+		return nil
+	}
+	fv := fieldVar(fa.X.Type(), fa.Field)
+	if fv == nil {
+		return nil
+	}
+	if _, ok := fv.Type().Underlying().(*types.Slice); !ok {
+		return nil
+	}
+	return fv
+}
+
+func (ts *taintState) joinElem(fv *types.Var, t *taintV) {
+	if t == nil {
+		return
+	}
+	n := joinTaint(ts.elem[fv], t)
+	if !sameTaint(ts.elem[fv], n) {
+		ts.elem[fv] = n
+		ts.changed = true
+	}
+}
+
+// appendedTaint: taint of the values appended in append(s, v...) — the variadic slice is a fresh array
+// whose elements are stored individually.
+func (ts *taintState) appendedTaint(arg ssa.Value) *taintV {
+	sl, ok := arg.(*ssa.Slice)
+	if !ok {
+		return nil
+	}
+	al, ok := sl.X.(*ssa.Alloc)
+	if !ok {
+		return nil
+	}
+	var j *taintV
+	for _, ref := range *al.Referrers() {
+		ia, ok := ref.(*ssa.IndexAddr)
+		if !ok {
+			continue
+		}
+		for _, r2 := range *ia.Referrers() {
+			if st, ok := r2.(*ssa.Store); ok && st.Addr == ssa.Value(ia) {
+				j = joinTaint(j, ts.get(st.Val))
+			}
+		}
+	}
+	return j
 }
 
 var recvFieldCache = map[*ssa.Function][]*types.Var{}
@@ -471,7 +551,7 @@ func runTaint(c *Ctx) *taintState {
 	if c.taint != nil {
 		return c.taint
 	}
-	ts := &taintState{c: c, val: map[ssa.Value]*taintV{}, field: map[*types.Var]*taintV{}, ret: map[*ssa.Function][]*taintV{}, param: map[*ssa.Parameter]*taintV{}, inSet: map[*ssa.Function]bool{}, isHeaderVar: map[*types.Var]bool{}, stores: map[*types.Var][]*ssa.Store{}}
+	ts := &taintState{c: c, val: map[ssa.Value]*taintV{}, field: map[*types.Var]*taintV{}, elem: map[*types.Var]*taintV{}, ret: map[*ssa.Function][]*taintV{}, param: map[*ssa.Parameter]*taintV{}, inSet: map[*ssa.Function]bool{}, isHeaderVar: map[*types.Var]bool{}, stores: map[*types.Var][]*ssa.Store{}}
 	if p := c.Pkg("mp4"); p != nil {
 		if tn, ok := p.Types.Scope().Lookup("BoxHeader").(*types.TypeName); ok {
 			if st, ok := tn.Type().Underlying().(*types.Struct); ok {
